@@ -27,6 +27,7 @@ VERIF = os.path.dirname(os.path.dirname(os.path.abspath(__file__)))
 LEAN = os.path.join(VERIF, "lean")
 REPO = os.environ.get("DEAP_REPO", "/repo")
 DRIVER = os.path.join(LEAN, ".lake", "build", "bin", "driver")
+CORR_PREFIXES = ("TAPE:", "CORRESPONDENCE:")
 ALLOWED_AXIOMS = {"propext", "Classical.choice", "Quot.sound"}
 FORBIDDEN = re.compile(
     r"\bsorry\b|\badmit\b|^\s*axiom\s|native_decide|bv_decide|implemented_by|\bunsafe\s|maxHeartbeats\s+0\b",
@@ -372,6 +373,10 @@ def run_check(pid, tier, seed, replay=None):
 
     if replay:
         return run_replay(mod, pid, replay)
+    for kind in ("oracle", "unproved"):        # a replay file always belongs to the run that names it
+        stale = os.path.join(VERIF, "replays", "%s-%s-seed%d.json" % (pid, kind, seed))
+        if os.path.exists(stale):
+            os.remove(stale)
 
     # 1. anchors
     anchors = getattr(mod, "ANCHORS", [])
@@ -395,7 +400,8 @@ def run_check(pid, tier, seed, replay=None):
                 except (OSError, ValueError, KeyError):
                     pass
     n_corpus = len(descs)
-    deadline = t0 + (getattr(mod, "TIME_BUDGET", {"quick": 60, "thorough": 600})[tier]) * mult
+    # the budget covers case generation/evaluation only: it starts now, after the proof step
+    deadline = time.time() + (getattr(mod, "TIME_BUDGET", {"quick": 60, "thorough": 600})[tier]) * mult
 
     def all_descs():
         for d in descs:
@@ -411,6 +417,11 @@ def run_check(pid, tier, seed, replay=None):
         c = safe_evaluate(mod, d)
         cases.append(c)
         hist[c.tag] = hist.get(c.tag, 0) + 1
+    if not exhausted:
+        print("TRUNCATED: time budget (%ds x%d) ended the generator after %d cases; later streams were not explored"
+              % (getattr(mod, "TIME_BUDGET", {"quick": 60, "thorough": 600})[tier], mult, len(cases)))
+        if len(cases) < getattr(mod, "MIN_CASES", 50):
+            raise Infra("time budget exhausted after %d cases (machine overloaded?)" % len(cases))
     lines = [l for c in cases for l in c.lines]
     expect = [e for c in cases for e in c.expect]
     got = run_driver(lines) if lines else []
@@ -438,6 +449,13 @@ def run_check(pid, tier, seed, replay=None):
         f = _classify(desc, msg, known_)
         return f if f in _listed else None
     known_hits = {}
+    # A module reports "the recorded tape / trace no longer fits the calls the code makes" as an oracle text
+    # starting with one of CORR_PREFIXES: that is a break of the correspondence (the model cannot replay the
+    # code), not a failing input of the property; it goes the no-failing-input-found way unless the search finds one.
+    for c in cases:
+        if c.oracle is not None and c.oracle.startswith(CORR_PREFIXES):
+            disagreements.append((c, c.lines[0] if c.lines else "(no protocol line)", c.oracle, "(correspondence break)"))
+            c.oracle = None
     for c in cases:
         if c.oracle is not None:
             f = classify(c.desc, c.oracle, known)
@@ -467,7 +485,7 @@ def run_check(pid, tier, seed, replay=None):
                 break
             searched += 1
             c = safe_evaluate(mod, d)
-            if c.oracle is not None and classify(c.desc, c.oracle, known) is None:
+            if c.oracle is not None and not c.oracle.startswith(CORR_PREFIXES) and classify(c.desc, c.oracle, known) is None:
                 found = c
                 break
         if found is not None:
